@@ -770,6 +770,11 @@ deriving Repr
 
 abbrev Env := String → Option EnvVal
 
+/-- `{extra}` if `extra` is a `str`, else the set -/
+def EnvVal.toList : EnvVal → List String
+  | .str s => [s]
+  | .set xs => xs
+
 /-- `normalize_name`: `re.sub(r"[-_.]+", "-", name).lower()` -/
 def normalizeName (s : String) : String :=
   let rec go : List Char → Bool → List Char
@@ -814,7 +819,7 @@ def _root_.DepLogic.Atom.eval (env : Env) (a : Atom) : Option Bool :=
     match env "extra" with
     | none => none
     | some ev =>
-      let extras := (match ev with | .str s => [s] | .set xs => xs).map normalizeName
+      let extras := ev.toList.map normalizeName
       let v := normalizeName a.value
       match a.op with
       | .eq => some (extras.contains v)
